@@ -92,6 +92,7 @@ func main() {
 	tmp := fs.String("tmp", "", "private scratch directory")
 	record := fs.Bool("trace", false, "record a readable trace")
 	maxc := fs.Int("max-candidates", 300, "shrink budget")
+	slotFlag := fs.Int("slot", -1, "solo: the document slot to execute alone")
 	coldFlag := fs.Bool("cold", false, "cold-start lane: mark every case cold (the concurrent phase is the first library use of this process)")
 	fs.Parse(os.Args[2:])
 
@@ -112,6 +113,37 @@ func main() {
 	}
 	env := &props.Env{Tmp: *tmp, Tier: *tier, Instr: buildInstr == "1", Race: buildRace == "1", Record: *record}
 	env.RaceNew = raceReader()
+	env.SoloSlot = -1
+	// isolated baseline: one document of a case alone in a fresh process (this binary, "solo" command)
+	soloN := 0
+	env.SoloFresh = func(c *sim.Case, slot int) ([]props.SoloObs, error) {
+		self, err := os.Executable()
+		if err != nil {
+			return nil, err
+		}
+		soloN++
+		dir := filepath.Join(*tmp, fmt.Sprintf("solo%d", soloN))
+		if err := os.MkdirAll(dir, 0o755); err != nil {
+			return nil, err
+		}
+		defer os.RemoveAll(dir)
+		cb, _ := json.Marshal(c)
+		cf := filepath.Join(dir, "case.json")
+		if err := os.WriteFile(cf, cb, 0o644); err != nil {
+			return nil, err
+		}
+		cmd := exec.Command(self, "solo", "--file", cf, "--slot", fmt.Sprint(slot), "--tmp", filepath.Join(dir, "t"))
+		cmd.Env = append(os.Environ(), "GORACE=log_path="+filepath.Join(dir, "race")+" halt_on_error=0 exitcode=0")
+		outb, err := cmd.Output()
+		if err != nil {
+			return nil, fmt.Errorf("solo process: %v", err)
+		}
+		var obs []props.SoloObs
+		if err := json.Unmarshal(outb, &obs); err != nil {
+			return nil, fmt.Errorf("solo process output: %v", err)
+		}
+		return obs, nil
+	}
 
 	switch cmd {
 	case "run":
@@ -193,6 +225,17 @@ func main() {
 			die("write: %v", err)
 		}
 		emit(line{T: "shrunk", Runs: tried, Msg: fmt.Sprintf("%d -> %d ops", c.NOps(), small.NOps())})
+	case "solo":
+		c := readCase(*file)
+		p := mustProp(c.Prop)
+		var obs []props.SoloObs
+		env.SoloSlot, env.SoloOut, env.SoloFresh = *slotFlag, &obs, nil
+		if _, infra := props.Execute(p, c, env); infra != nil {
+			die("infra: %v", infra)
+		}
+		b, _ := json.Marshal(obs)
+		out.Write(b)
+		out.Flush()
 	case "fp":
 		p := mustProp(*prop)
 		for k := uint64(0); k < *count; k++ {
